@@ -57,6 +57,12 @@ def evaluate(expr, env, funcs=None):
         cn = A.call_name(expr)
         if cn == "bool" and len(expr.args) == 1:
             return bool(evaluate(expr.args[0], env, funcs))
+        if cn in ("max", "min") and len(expr.args) >= 2 and not expr.keywords:
+            # order-preserving selections: the result is one of the operands, so the rank abstraction stays exact
+            vals = [evaluate(a, env, funcs) for a in expr.args]
+            return max(vals) if cn == "max" else min(vals)
         if cn in funcs:
             return funcs[cn](*[evaluate(a, env, funcs) for a in expr.args])
+    if isinstance(expr, ast.IfExp):
+        return evaluate(expr.body, env, funcs) if evaluate(expr.test, env, funcs) else evaluate(expr.orelse, env, funcs)
     raise Unsupported(A.norm(expr))
